@@ -3,11 +3,12 @@ from harness.props.session import *
 from harness.props import session as _s
 from harness.gen.sessions import gen_case, SidCounter
 
-LEAN_MODULES = ["C20", "C20b", "C20c"]
+LEAN_MODULES = ["C20", "C20b", "C20c", "C20d"]
 THEOREM_NOTE = ("Props/C20b.lean (the GLib machine, Model/GMachine.lean = GLibEventLoop over GLib main contexts + the same scheduler / input pipeline): after force_quit no handler is "
                 "called any more, enqueues are dropped, loops give up; every handler call is of a handler registered for the exact class with its data, from the list snapshotted at "
                 "enqueue; a batch is exactly the attach-order sub-sequence of the ready sources of the most urgent priority present. "
                 "Props/C20c.lean: the clauses of C02 / C03 / C09 / C10 on the GLib machine, each proved or refuted by a kernel-checked run replayed on the real code (G2: a failing handler skips the rest of its signal's handlers; G3: the batch continues after an exit request; G4: a waiting call dispatches whole batches, the mark comes after the handlers; close_loop does not drain). "
+                "Props/C20d.lean: for flat programs both machines refine the abstract runs (the MainLoop machine's macro step is mstep, the GLib machine's dispatch is gstep) and so produce the same handler invocations and the same final log on calm runs. "
                 "Props/C20.lean: on calm runs the two loop disciplines (MainLoop: stable priority queue, one signal at a time; GLib: batches of the most urgent priority in attach "
                 "order) dispatch the same signals in the same order; outside Calm the divergences are concrete, classified known findings G1-G4")
 ASSUMPTIONS = ASSUME_SESSION + ["GLib is NOT installed: GLibEventLoop runs on harness/impl/fakegi, a stand-in for gi.repository.GLib written from the GLib main-loop documentation (idle sources always "
